@@ -105,24 +105,35 @@ class Connective(Condition):
     def __init__(self, *conditions: Condition):
         super().__init__()
         self._children = conditions
-        # whether an activity is waiting to trigger our subscribers
-        self._watched = False
+        # the activity waiting to trigger our subscribers, if any
+        self._watched = None
 
     def __subscribe__(self, waiter: Coroutine, interrupt: CoreInterrupt):
         super().__subscribe__(waiter, interrupt)
         # Nothing triggers a connective by itself: the children only notify
         # their own subscribers. Keep one activity waiting on the children
         # which triggers our subscribers once the connective holds.
-        if not self._watched and self._waiting:
-            self._watched = True
-            __USIM_STATE__.loop.schedule(self.__watch_children__())
+        if self._watched is None and self._waiting:
+            self._watched = self.__watch_children__()
+            __USIM_STATE__.loop.schedule(self._watched)
+
+    def __unsubscribe__(self, waiter: Coroutine, interrupt: CoreInterrupt):
+        super().__unsubscribe__(waiter, interrupt)
+        # nobody is left to trigger: do not keep watching the children forever
+        if not self._waiting and self._watched is not None:
+            watcher, self._watched = self._watched, None
+            try:
+                watcher.close()
+            except ValueError:
+                # the watcher is just triggering us and about to finish
+                pass
 
     async def __watch_children__(self):
         try:
             await self.__await_children__()
             self.__trigger__()
         finally:
-            self._watched = False
+            self._watched = None
 
     def __await__(self) -> Generator[AnyT, None, bool]:
         return (yield from self.__await_children__().__await__())  # noqa: B901
